@@ -6,9 +6,9 @@ cd "$HERE"
 python3 translator/gen.py
 cd lean
 TARGETS="SppModel"
-for f in SppModel/Props/*.lean; do
-  m=$(basename "$f" .lean)
-  TARGETS="$TARGETS SppModel.Props.$m"
+for f in SppModel/Props/*.lean SppModel/Props/Tie/*.lean SppModel/Props/Kernels/*.lean; do
+  m=$(echo "${f%.lean}" | tr '/' '.')
+  TARGETS="$TARGETS $m"
 done
 lake build $TARGETS
 cd ..
